@@ -33,10 +33,13 @@ MODULES = {
     'C11': ['contracts.c11'],
     'C08': ['contracts.pit_layers'],
     'C01': ['contracts.pit_layers'],
-    'C04': ['contracts.pit_layers'],
-    'C12': ['contracts.pit_layers'],
-    'C05': ['contracts.mps_layers'],
+    'C04': ['contracts.pit_layers', 'contracts.wrappers'],
+    'C12': ['contracts.pit_layers', 'contracts.wrappers', 'contracts.c16', 'contracts.c13', 'contracts.c10'],
+    'C05': ['contracts.mps_layers', 'contracts.wrappers'],
     'C02': ['contracts.mps_layers'],
+    'C06': ['contracts.wrappers'],
+    'C18': ['contracts.wrappers'],
+    'C07': ['contracts.wrappers'],
 }
 
 EXTRACTION_DROPS = ['docstrings', 'type annotations', 'typing.cast (identity)', 'with torch.no_grad() (body kept)',
